@@ -299,14 +299,14 @@ func (la *LockAnalysis) CheckPairing(rule string, entries []*ssa.Function) {
 			}
 			// a lock held across user code must be released by a defer: a panic in that code (recovered further up
 			// by the configured recovery) would otherwise leave it held for ever
-			deferred := false
+			hasDeferredRelease := false
 			an.AllInstrs(f, func(t ssa.Instruction) {
 				o2, isDef, ok := la.lockCall(t)
 				if ok && isDef && o2 == rel && an.AP(an.CallOf(t).Args[0]) == lockAP {
-					deferred = true
+					hasDeferredRelease = true
 				}
 			})
-			if !deferred {
+			if !hasDeferredRelease {
 				g := an.NewGraph(c.P)
 				var user string
 				(&an.Query{
